@@ -731,23 +731,118 @@ func e3ArcHull(c *core.Ctx, r *core.Report, p *packages.Package, cc *ast.CaseCla
 		}
 	}
 	key := fmt.Sprintf("canvas.%s|%s|arc-mirror", fname, label)
-	if centre[0] != "" && centre[0] == centre[2] && centre[1] == centre[3] && centre[0] != centre[1] && radius[0] == radius[1] && radius[1] == radius[2] && radius[2] == radius[3] {
-		// radius must be max(rx, ry) of the two radii decoded at offsets 1 and 2
-		rad := defs[radius[0]]
-		var t *mmTree
-		if rad != nil {
-			t = minmaxTree(info, rad)
-		} else {
-			// inline expression
-			t = nil
-		}
-		if t != nil && t.op == "Max" && len(t.mixed) == 0 && len(t.leaves) == 2 && leafKey(t.leaves[0]) != leafKey(t.leaves[1]) {
-			r.OK("E3.mirror", key, c.Pos(cc.Pos()), "centre∓max(rx,ry)")
-		} else {
-			r.Fail("E3.mirror", key, c.Pos(cc.Pos()), "arc radius candidate is not math.Max of the two radii")
-		}
-	} else {
+	if !(centre[0] != "" && centre[0] == centre[2] && centre[1] == centre[3] && centre[0] != centre[1] && radius[0] == radius[2] && radius[1] == radius[3] && radius[0] != "") {
 		r.Fail("E3.mirror", key, c.Pos(cc.Pos()), fmt.Sprintf("arc hull is not symmetric: centres %v radii %v", centre, radius))
+		return
+	}
+	// each axis' half extent covers the ellipse: max(rx, ry) of the two radii (the circumscribed circle), or the
+	// Euclidean length of the axis' coefficient pair (the exact extent of the full ellipse)
+	var rxO, ryO, phiO types.Object
+	for _, st := range cc.Body {
+		as, ok := st.(*ast.AssignStmt)
+		if !ok || len(as.Rhs) != 1 {
+			continue
+		}
+		if call, ok := core.Unparen(as.Rhs[0]).(*ast.CallExpr); ok {
+			if f := core.CalleeOf(info, call); f != nil && f.Name() == "ellipseToCenter" && len(call.Args) >= 5 {
+				obj := func(e ast.Expr) types.Object {
+					if id, ok := core.Unparen(e).(*ast.Ident); ok {
+						return core.ObjOf(info, id)
+					}
+					return nil
+				}
+				rxO, ryO, phiO = obj(call.Args[2]), obj(call.Args[3]), obj(call.Args[4])
+			}
+		}
+	}
+	var sinO, cosO types.Object
+	for _, st := range cc.Body {
+		if as, ok := st.(*ast.AssignStmt); ok && len(as.Lhs) == 2 && len(as.Rhs) == 1 {
+			if name, call := core.MathFunc(info, as.Rhs[0]); name == "Sincos" && len(call.Args) == 1 {
+				if a, ok := core.Unparen(call.Args[0]).(*ast.Ident); ok && phiO != nil && core.ObjOf(info, a) == phiO {
+					if a, ok := as.Lhs[0].(*ast.Ident); ok {
+						sinO = core.ObjOf(info, a)
+					}
+					if b, ok := as.Lhs[1].(*ast.Ident); ok {
+						cosO = core.ObjOf(info, b)
+					}
+				}
+			}
+		}
+	}
+	sym := func(e ast.Expr) string {
+		switch x := e.(type) {
+		case *ast.Ident:
+			o := core.ObjOf(info, x)
+			switch {
+			case o == nil:
+			case o == rxO:
+				return "rx"
+			case o == ryO:
+				return "ry"
+			case o == sinO:
+				return "s"
+			case o == cosO:
+				return "c"
+			}
+		case *ast.CallExpr:
+			if name, call := core.MathFunc(info, x); (name == "Sin" || name == "Cos") && len(call.Args) == 1 {
+				if a, ok := core.Unparen(call.Args[0]).(*ast.Ident); ok && phiO != nil && core.ObjOf(info, a) == phiO {
+					if name == "Sin" {
+						return "s"
+					}
+					return "c"
+				}
+			}
+		}
+		return ""
+	}
+	want := [2]poly{{"c*c*rx*rx": 1, "ry*ry*s*s": 1}, {"rx*rx*s*s": 1, "c*c*ry*ry": 1}}
+	odefs := singleDefs(info, cc)
+	delete(odefs, rxO)
+	delete(odefs, ryO)
+	for axis, name := range []string{radius[0], radius[1]} {
+		rad := defs[name]
+		how := ""
+		if rad != nil {
+			if t := minmaxTree(info, rad); t != nil && t.op == "Max" && len(t.mixed) == 0 && len(t.leaves) == 2 && leafKey(t.leaves[0]) != leafKey(t.leaves[1]) {
+				ok := true
+				for _, l := range t.leaves {
+					id, isID := core.Unparen(l).(*ast.Ident)
+					if !isID || rxO == nil || (core.ObjOf(info, id) != rxO && core.ObjOf(info, id) != ryO) {
+						// leaves that are not the plain radii: only accepted when the radii could not be resolved (old form)
+						ok = rxO == nil
+					}
+				}
+				if ok {
+					how = "max(rx,ry)"
+				}
+			}
+			if how == "" {
+				if fn, call := core.MathFunc(info, rad); fn == "Sqrt" && len(call.Args) == 1 {
+					if pl, ok := polyOf(info, call.Args[0], sym, odefs); ok && polyEqual(pl, want[axis]) {
+						how = "Euclidean extent"
+					}
+				} else if fn == "Hypot" && len(call.Args) == 2 {
+					a, ok1 := polyOf(info, call.Args[0], sym, odefs)
+					b, ok2 := polyOf(info, call.Args[1], sym, odefs)
+					if ok1 && ok2 && polyEqual(polyAdd(polyMul(a, a), polyMul(b, b), 1), want[axis]) {
+						how = "Euclidean extent"
+					}
+				}
+			}
+		}
+		k2 := key
+		if radius[0] != radius[1] {
+			k2 = fmt.Sprintf("%s|%s", key, []string{"x", "y"}[axis])
+		} else if axis == 1 {
+			break
+		}
+		if how != "" {
+			r.OK("E3.mirror", k2, c.Pos(cc.Pos()), "centre∓"+how)
+		} else {
+			r.Fail("E3.mirror", k2, c.Pos(cc.Pos()), fmt.Sprintf("the half extent `%s` of the arc's box is neither math.Max of the two radii (the circumscribed circle) nor the Euclidean length √(%s) of the axis' coefficient pair: the box does not contain every rotated ellipse", name, want[axis]))
+		}
 	}
 }
 
